@@ -83,6 +83,9 @@ mutant("c04_ineq_tolerance_ignored", "C04", ["C04"], "src/gemseo/core/mdo_functi
 mutant("c04_sign_not_restored", "C04", ["C04"], "src/gemseo/algos/optimization_result.py",
        "            f_opt = -f_opt\n            objective_name = problem.objective.original_name\n", "            objective_name = problem.objective.original_name\n",
        "sign of the objective not restored for maximisation")
+mutant("c04_pareto_later_ties", "C04", ["C04"], "src/gemseo/algos/pareto/utils.py",
+       "        after_are_worse = any_ax1_all(obj_values_filtered[i + 1 :] > obj)\n", "        after_are_worse = any_ax1_all(obj_values_filtered[i + 1 :] >= obj)\n",
+       "a later point tied in one objective and better in another no longer excludes a point from the front")
 # ---- C05 ----------------------------------------------------------------------------------
 mutant("c05_simple_cache_shallow", "C05", ["C05"], "src/gemseo/caches/simple_cache.py",
        "        self.__inputs = deepcopy_dict_of_arrays(input_data)\n        self.__outputs = deepcopy_dict_of_arrays(output_data)\n        self.__jacobian = {}\n",
